@@ -91,17 +91,29 @@ def r1_delegation(prog, rep: Report, fam: Family, mut: Cls, lines: str):
                 return False
 
             def refine(s_, test, state, ctx):
+                cur = state[1] if len(state) > 1 else "entry"
                 if isinstance(test, ast.Call) and src(test.func) == "isinstance" and len(test.args) == 2 and src(test.args[0]) == entry:
                     t_ = src(test.args[1])
                     if t_ == "str":
-                        return (("str",),), (("off",),)
+                        return (("str", cur),), (("off", cur),)
                     if t_ == "int":
-                        return (("off",),), (("str",),)
+                        return (("off", cur),), (("str", cur),)
                 return (state,), (state,)
 
             def event(s_, kind, node, state, ctx):
+                cur = state[1] if len(state) > 1 else "entry"
+                if kind == "store" and isinstance(node, ast.Name) and node.id == entry:
+                    # the local that held the table entry is re-bound (`line = self._read_line(n)` on the offset branch)
+                    av = assigned_value(node)
+                    is_read = isinstance(av, ast.Call) and isinstance(av.func, ast.Attribute) and av.func.attr == fam.raw_reader \
+                        and [src(a) for a in av.args] == [n]
+                    is_entry = isinstance(av, ast.Subscript) and dotted(av.value) == (g.self_name, lines)
+                    return ((state[0], "read" if is_read else "entry" if is_entry else "other"),)
                 if kind == "return" and node.value is not None:
                     v = node.value
+                    if src(v) == entry and cur != "entry":
+                        s_.rets.append((state[0], cur))
+                        return (state,)
                     what = "entry" if src(v) == entry else \
                         "read" if (isinstance(v, ast.Call) and isinstance(v.func, ast.Attribute) and v.func.attr == fam.raw_reader
                                    and [src(a) for a in v.args] == [n]) else "other"
